@@ -18,6 +18,12 @@ returned by `urlsplit`.  Stems are compared "empty path stems aside", i.e. throu
 * converse: full in both modes (`under_of_stems_prefix`, `under_of_stems_prefix_sa`), only `u`
   needs to be without userinfo; suffix-aware hosts are compared lower-cased;
 * `serialize_prefix_iff`: with the `|` after every stem, stem-list prefix is string prefix.
+* the clause "the serialised LRU of `u` is a string prefix of that of `v`": `lru_prefix_of_under*`
+  state it for the serialisation of the CLEANED stems (`serialize_lru ∘ clean_trailing_path ∘
+  lru_stems`, a string no ural function returns); for `url_to_lru` itself it holds when `v`'s path
+  segments read as they are extend `u`'s (`UnderRaw`: `stems_prefix_of_under_raw`,
+  `lru_prefix_of_under_raw`, `url_to_lru_prefix_of_under_string`) and is false under `Under`
+  (`raw_lru_not_prefix_witness`: `http://a.com/` vs `http://a.com/x`).
 -/
 set_option linter.unusedSectionVars false
 set_option linter.unusedSimpArgs false
@@ -129,6 +135,25 @@ theorem serialize_prefix_iff (A B : List Str) (hne : A ≠ []) (hBne : B ≠ [])
 
 /-! ## forward -/
 
+theorem under_to_nestedG (segs : Str → List Str) (f : Str → Str) (u v : Parts)
+    {Heq Hpre : Prop} (hrefl : Heq → Hpre)
+    (h1 : f (specHost u.netloc) = f (specHost v.netloc) → Heq)
+    (h2 : strictSub (f (specHost u.netloc)) (f (specHost v.netloc)) = true → Hpre)
+    (h : UnderByG segs f u v) :
+    u.scheme = v.scheme ∧ specPort u.netloc = specPort v.netloc ∧
+      ((Heq ∧
+          ((segs u.path = segs v.path ∧
+              ((u.query = v.query ∧ (u.fragment = [] ∨ u.fragment = v.fragment)) ∨
+               (u.fragment = [] ∧ (u.query = [] ∨ u.query = v.query)))) ∨
+           (u.query = [] ∧ u.fragment = [] ∧ segs u.path <+: segs v.path))) ∨
+       (segs u.path = [] ∧ u.query = [] ∧ u.fragment = [] ∧ Hpre)) := by
+  unfold UnderByG at h
+  have hP0 : segs u.path = [] → segs u.path <+: segs v.path := by
+    intro e; rw [e]; exact List.nil_prefix
+  have hPeq : segs u.path = segs v.path → segs u.path <+: segs v.path := by
+    intro e; rw [e]; exact List.prefix_refl _
+  grind
+
 theorem under_to_nested (f : Str → Str) (u v : Parts)
     {Heq Hpre : Prop} (hrefl : Heq → Hpre)
     (h1 : f (specHost u.netloc) = f (specHost v.netloc) → Heq)
@@ -140,13 +165,8 @@ theorem under_to_nested (f : Str → Str) (u v : Parts)
               ((u.query = v.query ∧ (u.fragment = [] ∨ u.fragment = v.fragment)) ∨
                (u.fragment = [] ∧ (u.query = [] ∨ u.query = v.query)))) ∨
            (u.query = [] ∧ u.fragment = [] ∧ cleanSegs u.path <+: cleanSegs v.path))) ∨
-       (cleanSegs u.path = [] ∧ u.query = [] ∧ u.fragment = [] ∧ Hpre)) := by
-  unfold UnderBy at h
-  have hP0 : cleanSegs u.path = [] → cleanSegs u.path <+: cleanSegs v.path := by
-    intro e; rw [e]; exact List.nil_prefix
-  have hPeq : cleanSegs u.path = cleanSegs v.path → cleanSegs u.path <+: cleanSegs v.path := by
-    intro e; rw [e]; exact List.prefix_refl _
-  grind
+       (cleanSegs u.path = [] ∧ u.query = [] ∧ u.fragment = [] ∧ Hpre)) :=
+  under_to_nestedG cleanSegs f u v hrefl h1 h2 h
 
 theorem nested_to_under (f : Str → Str) (u v : Parts)
     {Heq Hpre : Prop}
@@ -166,17 +186,14 @@ theorem nested_to_under (f : Str → Str) (u v : Parts)
     intro e; rw [e]; exact List.nil_prefix
   grind
 
-/-- **forward, `suffix_aware = False`** (full): if `v` lies under `u`, the stems of `u` (empty
-path stems aside) are a prefix of the stems of `v`.  `u` has no userinfo; the hosts are names
-unless equal. -/
-theorem stems_prefix_of_under (u v : Parts) (hwu : wfNetloc u.netloc = true)
+/-- forward, `suffix_aware = False`, for any reading `segs` of the path segments — the core of
+`stems_prefix_of_under` (`cleanSegs`) and of `stems_prefix_of_under_raw` (`rawSegs`) -/
+theorem keyG_prefix_of_under (segs : Str → List Str) (u v : Parts) (hwu : wfNetloc u.netloc = true)
     (hwv : wfNetloc v.netloc = true) (hnu : noUserinfo u.netloc = true) (hnames : NamesOrEqual u v)
-    (h : Under u v) :
-    cleanTrailingPath (lruStems sp false u) <+: cleanTrailingPath (lruStems sp false v) := by
-  rw [clean_lruStems, clean_lruStems]
-  apply List.IsPrefix.map
-  rw [keyStems_prefix_iff sp false u v hnu hwu hwv]
-  apply under_to_nested id u v (fun e => by rw [e]; exact List.prefix_refl _) _ _ h
+    (h : UnderByG segs id u v) :
+    keyStemsG sp segs false u <+: keyStemsG sp segs false v := by
+  rw [keyStemsG_prefix_iff sp segs false u v hnu hwu hwv]
+  apply under_to_nestedG segs id u v (fun e => by rw [e]; exact List.prefix_refl _) _ _ h
   · intro e
     simp only [id] at e
     rw [hostStems_spec, hostStems_spec]
@@ -189,6 +206,56 @@ theorem stems_prefix_of_under (u v : Parts) (hwu : wfNetloc u.netloc = true)
     · rw [e]; exact List.prefix_refl _
     · rw [normalHostStems_of_labelHost l1, normalHostStems_of_labelHost l2, hpre, labelStems_sub]
       exact List.prefix_append _ _
+
+/-- **forward, `suffix_aware = False`** (full): if `v` lies under `u`, the stems of `u` (empty
+path stems aside) are a prefix of the stems of `v`.  `u` has no userinfo; the hosts are names
+unless equal. -/
+theorem stems_prefix_of_under (u v : Parts) (hwu : wfNetloc u.netloc = true)
+    (hwv : wfNetloc v.netloc = true) (hnu : noUserinfo u.netloc = true) (hnames : NamesOrEqual u v)
+    (h : Under u v) :
+    cleanTrailingPath (lruStems sp false u) <+: cleanTrailingPath (lruStems sp false v) := by
+  rw [clean_lruStems, clean_lruStems, keyStems_eq_G, keyStems_eq_G]
+  exact (keyG_prefix_of_under sp cleanSegs u v hwu hwv hnu hnames h).map render
+
+/-- the stems `lru_stems` returns, as they are (no `clean_trailing_path`) -/
+theorem lruStems_eq_G (sa : Bool) (p : Parts) :
+    lruStems sp sa p = (keyStemsG sp rawSegs sa p).map render := by
+  unfold lruStems; rw [lruStemsT_eq_G]
+
+/-- **forward, `suffix_aware = False`, the RAW stems** (full): if `v` lies under `u` with the
+path segments read as they are (`UnderRaw`: `v`'s segments, empty ones included, extend `u`'s),
+the stems `lru_stems(u)` are a prefix of `lru_stems(v)` — no `clean_trailing_path` on either
+side -/
+theorem stems_prefix_of_under_raw (u v : Parts) (hwu : wfNetloc u.netloc = true)
+    (hwv : wfNetloc v.netloc = true) (hnu : noUserinfo u.netloc = true) (hnames : NamesOrEqual u v)
+    (h : UnderRaw u v) :
+    lruStems sp false u <+: lruStems sp false v := by
+  rw [lruStems_eq_G, lruStems_eq_G]
+  exact (keyG_prefix_of_under sp rawSegs u v hwu hwv hnu hnames h).map render
+
+theorem filter_prefix {α : Type} (p : α → Bool) {a b : List α} (h : a <+: b) :
+    a.filter p <+: b.filter p := by
+  obtain ⟨t, rfl⟩ := h
+  rw [List.filter_append]
+  exact List.prefix_append _ _
+
+theorem cleanSegs_eq_filter (path : Str) : cleanSegs path = (rawSegs path).filter (· != []) := rfl
+
+/-- the raw reading of the hierarchy implies the one of the statement (empty segments aside) -/
+theorem under_of_underRaw (u v : Parts) (h : UnderRaw u v) : Under u v := by
+  obtain ⟨h1, h2, h3, h4, h5⟩ := h
+  refine ⟨h1, h2, ?_, ?_, h5⟩
+  · rcases h3 with e | ⟨a, b⟩
+    · exact Or.inl e
+    · right
+      refine ⟨?_, b⟩
+      rw [cleanSegs_eq_filter, a]; rfl
+  · rcases h4 with e | ⟨a, b, c⟩
+    · left; rw [cleanSegs_eq_filter, cleanSegs_eq_filter, e]
+    · right
+      refine ⟨a, b, ?_⟩
+      rw [cleanSegs_eq_filter, cleanSegs_eq_filter]
+      exact filter_prefix _ c
 
 /-- the full forward statement for `suffix_aware = True` (without the same-suffix hypothesis) -/
 def FullForwardSuffixAware : Prop :=
@@ -234,12 +301,10 @@ theorem stems_prefix_of_under_partial (u v : Parts) (hwu : wfNetloc u.netloc = t
       rw [hsu du s a, hsv dv s b, hpre, lower_append, lower_cons]
       simp [lowerChar]
 
-/-- the cleaned stems of a URL without `|`: non-empty, no `|` -/
-theorem clean_stems_ok (sa : Bool) (p : Parts) (hb : noBar p = true)
-    (hs : sa = true → SplitLaw sp p.netloc) :
+/-- the cleaned stems of a well-formed stem list of a URL: non-empty, no `|` -/
+theorem clean_stems_ok_of (sa : Bool) (p : Parts) (ok : StemsOK (lruStems sp sa p)) :
     cleanTrailingPath (lruStems sp sa p) ≠ [] ∧
       ∀ s ∈ cleanTrailingPath (lruStems sp sa p), '|' ∉ s := by
-  have ok := C12.stems_wellformed sp sa p hb hs
   constructor
   · rw [clean_lruStems]
     simp only [ne_eq, List.map_eq_nil_iff, keyStems, List.append_eq_nil_iff]
@@ -249,8 +314,17 @@ theorem clean_stems_ok (sa : Bool) (p : Parts) (hb : noBar p = true)
     simp only [cleanTrailingPath, List.mem_filter] at hsm
     exact ok.nobar s hsm.1
 
-/-- **the serialised LRU of `u` is a string prefix of that of `v`** (empty path stems aside),
-`suffix_aware = False`, for URLs without `|` -/
+/-- the cleaned stems of a URL without `|`: non-empty, no `|` -/
+theorem clean_stems_ok (sa : Bool) (p : Parts) (hb : noBar p = true)
+    (hs : sa = true → SplitLaw sp p.netloc) :
+    cleanTrailingPath (lruStems sp sa p) ≠ [] ∧
+      ∀ s ∈ cleanTrailingPath (lruStems sp sa p), '|' ∉ s :=
+  clean_stems_ok_of sp sa p (C12.stems_wellformed sp sa p hb hs)
+
+/-- **the serialisation of the CLEANED stems of `u` is a string prefix of that of `v`**
+(`serialize_lru(clean_trailing_path(lru_stems(·)))` on both sides: "empty path stems aside"),
+`suffix_aware = False`, for URLs without `|`.  NOT a statement about `url_to_lru(u)`, which keeps
+the empty path stems: see `lru_prefix_of_under_raw` / `raw_lru_not_prefix_witness` -/
 theorem lru_prefix_of_under (u v : Parts) (hwu : wfNetloc u.netloc = true)
     (hwv : wfNetloc v.netloc = true) (hnu : noUserinfo u.netloc = true) (hnames : NamesOrEqual u v)
     (hbu : noBar u = true) (hbv : noBar v = true) (h : Under u v) :
@@ -260,6 +334,20 @@ theorem lru_prefix_of_under (u v : Parts) (hwu : wfNetloc u.netloc = true)
   have cv := clean_stems_ok sp false v hbv (by simp)
   rw [serialize_prefix_iff _ _ cu.1 cv.1 cu.2 cv.2]
   exact stems_prefix_of_under sp u v hwu hwv hnu hnames h
+
+/-- **`url_to_lru(u)` itself is a string prefix of `url_to_lru(v)`** — the serialisation of the
+stems as `lru_stems` returns them, empty path stems kept —, `suffix_aware = False`, for URLs
+without `|`, when `v` lies under `u` with the path segments read as they are (`UnderRaw`).  Under
+the statement's reading `Under` (empty path stems aside) this is false: `http://a.com/` →
+`…|p:|` is not a prefix of `http://a.com/x` → `…|p:x|` (`raw_lru_not_prefix_witness`) -/
+theorem lru_prefix_of_under_raw (u v : Parts) (hwu : wfNetloc u.netloc = true)
+    (hwv : wfNetloc v.netloc = true) (hnu : noUserinfo u.netloc = true) (hnames : NamesOrEqual u v)
+    (hbu : noBar u = true) (hbv : noBar v = true) (h : UnderRaw u v) :
+    serializeLru (lruStems sp false u) <+: serializeLru (lruStems sp false v) := by
+  have ou := C12.stems_wellformed sp false u hbu (by simp)
+  have ov := C12.stems_wellformed sp false v hbv (by simp)
+  rw [serialize_prefix_iff _ _ ou.ne ov.ne ou.nobar ov.nobar]
+  exact stems_prefix_of_under_raw sp u v hwu hwv hnu hnames h
 
 /-- the same, `suffix_aware = True`, under the same-suffix hypothesis -/
 theorem lru_prefix_of_under_partial (u v : Parts) (hwu : wfNetloc u.netloc = true)
@@ -438,7 +526,8 @@ theorem stemsUrl_of_parts (sa : Bool) {u : Str} {pu : Parts} (hu : urlParts u = 
 
 /-- **forward, `suffix_aware = False`, on URL strings** (full): if the parser splits `u`, `v`
 (no `|`) into components in the grammar with `v` under `u`, then `lru_stems(u)` (empty path
-stems aside) is a prefix of `lru_stems(v)` and the serialised LRU a string prefix -/
+stems aside) is a prefix of `lru_stems(v)` and the serialisation of the cleaned stems a string
+prefix (for the string `url_to_lru` returns: `url_to_lru_prefix_of_under_string`) -/
 theorem lru_prefix_of_under_string (u v : Str) (hbu : '|' ∉ u) (hbv : '|' ∉ v) (pu pv : Parts)
     (hu : urlParts u = some pu) (hv : urlParts v = some pv)
     (hwu : wfNetloc pu.netloc = true) (hwv : wfNetloc pv.netloc = true)
@@ -492,6 +581,55 @@ theorem under_of_stems_prefix_string (sa : Bool) (u v : Str) (su sv : List Str)
       | false => exact under_of_stems_prefix sp pu pv hwu hwv hnu hpre
       | true =>
         exact under_of_stems_prefix_sa sp pu pv hwu hwv hnu (hlaw rfl).1 (hlaw rfl).2 hpre
+
+theorem urlToLru_of_parts (sa : Bool) {u : Str} {pu : Parts} (hu : urlParts u = some pu) :
+    urlToLru sp sa u = some (serializeLru (lruStems sp sa pu)) := by
+  simp [urlToLru, lruStemsUrl, hu]
+
+/-- **forward for the real `lru_stems` / `url_to_lru`, on URL strings, `suffix_aware = False`**
+(full): if the parser splits `u`, `v` (no `|`) into components in the grammar with `v` under `u`,
+path segments read as they are (`UnderRaw`), then `lru_stems(u)` is a prefix of `lru_stems(v)` and
+the string `url_to_lru(u)` is a prefix of the string `url_to_lru(v)` -/
+theorem url_to_lru_prefix_of_under_string (u v : Str) (hbu : '|' ∉ u) (hbv : '|' ∉ v)
+    (pu pv : Parts) (hu : urlParts u = some pu) (hv : urlParts v = some pv)
+    (hwu : wfNetloc pu.netloc = true) (hwv : wfNetloc pv.netloc = true)
+    (hnu : noUserinfo pu.netloc = true) (hnames : NamesOrEqual pu pv) (h : UnderRaw pu pv) :
+    ∃ su sv lu lv, lruStemsUrl sp false u = some su ∧ lruStemsUrl sp false v = some sv ∧
+      urlToLru sp false u = some lu ∧ urlToLru sp false v = some lv ∧ su <+: sv ∧ lu <+: lv :=
+  ⟨_, _, _, _, stemsUrl_of_parts sp false hu, stemsUrl_of_parts sp false hv,
+    urlToLru_of_parts sp false hu, urlToLru_of_parts sp false hv,
+    stems_prefix_of_under_raw sp pu pv hwu hwv hnu hnames h,
+    lru_prefix_of_under_raw sp pu pv hwu hwv hnu hnames (C12.noBar_of_url hu hbu)
+      (C12.noBar_of_url hv hbv) h⟩
+
+/-- **with an empty path stem the clause fails for `url_to_lru`**: `http://a.com/x` lies under
+`http://a.com/` (`Under`, empty path stems aside; not `UnderRaw`), the cleaned serialisations are
+nested, but `url_to_lru("http://a.com/") = "s:http|h:com|h:a|p:|"` is not a string prefix of
+`url_to_lru("http://a.com/x") = "s:http|h:com|h:a|p:x|"` -/
+theorem raw_lru_not_prefix_witness :
+    let pu : Parts := { urlUk with netloc := "a.com".toList, path := "/".toList }
+    let pv : Parts := { urlUk with netloc := "a.com".toList, path := "/x".toList }
+    urlParts "http://a.com/".toList = some pu ∧ urlParts "http://a.com/x".toList = some pv ∧
+    Under pu pv ∧ ¬ UnderRaw pu pv ∧
+    urlToLru (fun _ => none) false "http://a.com/".toList = some "s:http|h:com|h:a|p:|".toList ∧
+    urlToLru (fun _ => none) false "http://a.com/x".toList = some "s:http|h:com|h:a|p:x|".toList ∧
+    ¬ ("s:http|h:com|h:a|p:|".toList <+: "s:http|h:com|h:a|p:x|".toList) ∧
+    serializeLru (cleanTrailingPath (lruStems (fun _ => none) false pu)) <+:
+      serializeLru (cleanTrailingPath (lruStems (fun _ => none) false pv)) := by
+  decide +kernel
+
+/-- non-vacuity of the raw law: trailing slash and an empty segment inside -/
+example : ¬ UnderRaw { urlUk with netloc := "a.com".toList, path := "/a".toList }
+      { urlUk with netloc := "www.a.com".toList, path := "/a/".toList } ∧
+    UnderRaw { urlUk with netloc := "a.com".toList, path := "/a".toList }
+      { urlUk with netloc := "a.com".toList, path := "/a/".toList, query := "q".toList } ∧
+    UnderRaw { urlUk with netloc := "a.com".toList, path := "/a/".toList }
+      { urlUk with netloc := "a.com".toList, path := "/a//b".toList } ∧
+    ¬ UnderRaw { urlUk with netloc := "a.com".toList, path := "/a/".toList }
+      { urlUk with netloc := "a.com".toList, path := "/a/b".toList } ∧
+    UnderRaw { urlUk with netloc := "a.com".toList }
+      { urlUk with netloc := "www.a.com".toList, path := "//x".toList } := by
+  refine ⟨by decide, by decide, by decide, by decide, by decide⟩
 
 /-- stem-list prefix ⇔ string prefix of `url_to_lru`, for the LRUs of two `|`-free URL strings
 (`suffix_aware = False`; no grammar restriction) -/
